@@ -1,0 +1,5 @@
+//go:build !verif
+
+package ctree
+
+func verifPoint(string, interface{}) {}
